@@ -13,18 +13,18 @@ use vcommon::{
 use zlink_core::Reply;
 
 pub const RULE: &str = "case = an operation list over {Set (values 1,2,3,... through the state or a \
-clone of it), Subscribe, Poll(i) (one poll_next of subscriber i with a no-op waker), Clone, \
+clone of it), SetSame (set the value that is already current), Subscribe, Poll(i) (one poll_next of subscriber i with a no-op waker), Clone, \
 DropOriginal} with up to 6 sets and up to 3 subscribers created at arbitrary points, followed by \
 draining every subscriber, then dropping every state and draining again; run against \
 zlink_tokio::notified and zlink_smol::notified. Oracle (model): what subscriber i receives is a \
-strictly increasing subsequence of the values set after it subscribed, each marked continues = \
-true; whenever a poll returns Pending its last value is the last value set since it subscribed (it \
+subsequence of the values set after it subscribed, each marked continues = \
+true; whenever a poll returns Pending its last value is the last value set since it subscribed and, if anything was set since it last was up to date, it has received something since (it \
 is up to date); a poll never returns end-of-stream while a state (or clone) exists; after all \
 states are gone the stream ends, and the last value set has been seen by then; setting never fails \
 or panics, with or without subscribers. One-shot: notify before / after the first poll gives \
 exactly one item marked continues = false and then the end; a dropped notifier gives just the end. \
 Both runtimes must satisfy the same rules (trace equality between them is recorded, not demanded). \
-All operation lists up to length 7 over {Set, Subscribe, Poll0, Poll1} are enumerated. \
+All operation lists up to length 7 over {Set, SetSame, Subscribe, Poll0, Poll1} are enumerated. \
 Non-trivial = a subscriber that is polled after at least 2 sets since its previous poll (lag) or \
 that subscribed after the first set; distinct by hash of (runtime, operations).";
 
@@ -37,6 +37,9 @@ pub enum Op {
     Poll(u8),
     Clone,
     DropOriginal,
+    /// set the value that is already current (the previous set's value, or the initial one): still
+    /// a set - a subscriber that has not seen the value yet must get it
+    SetSame,
 }
 
 #[derive(Debug, Clone, Copy, PartialEq, Eq, Hash, Serialize, Deserialize)]
@@ -136,6 +139,11 @@ struct SubModel {
     seen: Vec<u64>,
     /// sets since this subscriber's previous poll
     sets_since_poll: usize,
+    /// next position in `set_since` a received value may be matched to (values can repeat)
+    match_pos: usize,
+    /// sets / items since this subscriber last reported Pending (or subscribed)
+    sets_since_pending: usize,
+    items_since_pending: usize,
     lagged: bool,
     late: bool,
 }
@@ -147,6 +155,7 @@ fn run_ops<N: Notified>(ops: &[Op], rt: Runtime, stats: &mut Stats) -> Result<Ve
     let mut states: Vec<Option<N::State>> = vec![Some(N::new(0))];
     let mut subs: Vec<(N::Stream, SubModel)> = Vec::new();
     let mut next = 0u64;
+    let mut n_sets = 0usize;
     let mut any_set = false;
 
     // judge one poll result of subscriber i
@@ -159,24 +168,34 @@ fn run_ops<N: Notified>(ops: &[Op], rt: Runtime, stats: &mut Stats) -> Result<Ve
                 if !m.set_since.contains(v) {
                     return Err(Fail::new("value-not-set-after-subscription", format!("[{name}] subscriber {i} got {v}; values set since it subscribed: {:?}", m.set_since)));
                 }
-                if m.seen.last().is_some_and(|l| l >= v) {
-                    return Err(Fail::new("values-out-of-order-or-repeated", format!("[{name}] subscriber {i} got {v} after {:?}", m.seen)));
+                // the received values must be a subsequence of the values set (earliest match)
+                match m.set_since[m.match_pos.min(m.set_since.len())..].iter().position(|x| x == v) {
+                    Some(k) => m.match_pos += k + 1,
+                    None => return Err(Fail::new("values-out-of-order-or-repeated", format!("[{name}] subscriber {i} got {v} after {:?}; values set since it subscribed: {:?}", m.seen, m.set_since))),
                 }
                 m.seen.push(*v);
+                m.items_since_pending += 1;
             }
             Got::Pending => {
-                if m.seen.last() != m.set_since.last() {
+                if m.seen.last() != m.set_since.last() || (m.sets_since_pending > 0 && m.items_since_pending == 0) {
                     return Err(Fail::new(
                         "pending-while-behind-the-latest-value",
-                        format!("[{name}] subscriber {i}: poll returned Pending although the latest value is {:?} and it has seen {:?}", m.set_since.last(), m.seen),
+                        format!(
+                            "[{name}] subscriber {i}: poll returned Pending although the latest value is {:?} ({} set(s) since it last was up to date) and it has seen {:?}",
+                            m.set_since.last(),
+                            m.sets_since_pending,
+                            m.seen
+                        ),
                     ));
                 }
+                m.sets_since_pending = 0;
+                m.items_since_pending = 0;
             }
             Got::End => {
                 if states_alive {
                     return Err(Fail::new("subscription-ended-while-state-exists", format!("[{name}] subscriber {i}: end of stream although the state still exists")));
                 }
-                if m.seen.last() != m.set_since.last() {
+                if m.seen.last() != m.set_since.last() || (m.sets_since_pending > 0 && m.items_since_pending == 0) {
                     return Err(Fail::new("stream-ended-without-the-latest-value", format!("[{name}] subscriber {i}: ended having seen {:?}, latest set {:?}", m.seen, m.set_since.last())));
                 }
             }
@@ -187,13 +206,15 @@ fn run_ops<N: Notified>(ops: &[Op], rt: Runtime, stats: &mut Stats) -> Result<Ve
 
     for op in ops {
         match *op {
-            Op::Set | Op::SetClone => {
-                let idx = if *op == Op::Set { states.iter().position(|s| s.is_some()) } else { states.iter().rposition(|s| s.is_some()) };
+            Op::Set | Op::SetClone | Op::SetSame => {
+                let idx = if *op != Op::SetClone { states.iter().position(|s| s.is_some()) } else { states.iter().rposition(|s| s.is_some()) };
                 let Some(idx) = idx else { continue };
-                next += 1;
-                if next > 6 {
-                    next -= 1;
+                if n_sets >= 6 {
                     continue;
+                }
+                n_sets += 1;
+                if *op != Op::SetSame {
+                    next += 1;
                 }
                 let st = states[idx].as_mut().unwrap();
                 if !N::set(st, next) {
@@ -206,6 +227,7 @@ fn run_ops<N: Notified>(ops: &[Op], rt: Runtime, stats: &mut Stats) -> Result<Ve
                 for (_, m) in &mut subs {
                     m.set_since.push(next);
                     m.sets_since_poll += 1;
+                    m.sets_since_pending += 1;
                     if m.sets_since_poll >= 2 {
                         m.lagged = true;
                     }
@@ -216,7 +238,7 @@ fn run_ops<N: Notified>(ops: &[Op], rt: Runtime, stats: &mut Stats) -> Result<Ve
                     continue;
                 }
                 let Some(st) = states.iter().flatten().next() else { continue };
-                subs.push((N::stream(st), SubModel { set_since: vec![], seen: vec![], sets_since_poll: 0, lagged: false, late: any_set }));
+                subs.push((N::stream(st), SubModel { set_since: vec![], seen: vec![], sets_since_poll: 0, match_pos: 0, sets_since_pending: 0, items_since_pending: 0, lagged: false, late: any_set }));
             }
             Op::Poll(i) => {
                 let i = i as usize;
@@ -299,7 +321,7 @@ fn nontrivial(ops: &[Op]) -> bool {
     let mut sets_run = 0;
     for op in ops {
         match op {
-            Op::Set | Op::SetClone => {
+            Op::Set | Op::SetClone | Op::SetSame => {
                 seen_set = true;
                 sets_run += 1;
                 if subs > 0 && sets_run >= 2 {
@@ -397,21 +419,22 @@ pub fn op_strategy() -> impl Strategy<Value = Op> {
         5 => (0u8..3).prop_map(Op::Poll),
         1 => Just(Op::Clone),
         1 => Just(Op::DropOriginal),
+        2 => Just(Op::SetSame),
     ]
 }
 
 fn enumerated() -> Vec<Vec<Op>> {
-    let alphabet = [Op::Set, Op::Sub, Op::Poll(0), Op::Poll(1)];
+    let alphabet = [Op::Set, Op::SetSame, Op::Sub, Op::Poll(0), Op::Poll(1)];
     let mut out = vec![vec![]];
     let mut frontier = vec![vec![]];
     for _ in 0..7 {
         let mut next = Vec::new();
         for s in &frontier {
             for a in alphabet {
-                let sets = s.iter().filter(|o| **o == Op::Set).count();
+                let sets = s.iter().filter(|o| matches!(**o, Op::Set | Op::SetSame)).count();
                 let subs = s.iter().filter(|o| **o == Op::Sub).count();
                 match a {
-                    Op::Set if sets >= 4 => continue,
+                    Op::Set | Op::SetSame if sets >= 4 => continue,
                     Op::Sub if subs >= 2 => continue,
                     Op::Poll(i) if (i as usize) >= subs => continue,
                     _ => {}
